@@ -275,6 +275,43 @@ fn const_bytes<'tcx>(tcx: TyCtxt<'tcx>, owner: DefId, c: &MirConst<'tcx>) -> Opt
 		},
 		_ => false,
 	};
+	// `&&str` (e.g. the promoted right-hand side of `k == "version"`): follow one more pointer
+	let is_ref_ref_str = match ty.kind() {
+		ty::Ref(_, inner, _) => match inner.kind() {
+			ty::Ref(_, i2, _) => matches!(i2.kind(), ty::Str),
+			_ => false,
+		},
+		_ => false,
+	};
+	if is_ref_ref_str {
+		let env = TypingEnv::post_analysis(tcx, owner);
+		let val = match c {
+			MirConst::Val(v, _) => *v,
+			MirConst::Unevaluated(..) | MirConst::Ty(..) => c.eval(tcx, env, rustc_span::DUMMY_SP).ok()?,
+		};
+		if let ConstValue::Scalar(rustc_middle::mir::interpret::Scalar::Ptr(ptr, _)) = val {
+			let (prov, offset) = ptr.into_raw_parts();
+			if let rustc_middle::mir::interpret::GlobalAlloc::Memory(a) = tcx.try_get_global_alloc(prov.alloc_id())? {
+				let alloc = a.inner();
+				let off = offset.bytes() as usize;
+				if off + 16 > alloc.len() {
+					return None;
+				}
+				let raw = alloc.inspect_with_uninit_and_ptr_outside_interpreter(off..off + 16);
+				let len = u64::from_le_bytes(raw[8..16].try_into().ok()?) as usize;
+				let inner_off = u64::from_le_bytes(raw[0..8].try_into().ok()?) as usize;
+				let (_, p2) = alloc.provenance().ptrs().iter().find(|(o, _)| o.bytes() as usize == off)?;
+				if let rustc_middle::mir::interpret::GlobalAlloc::Memory(b) = tcx.try_get_global_alloc(p2.alloc_id())? {
+					let ib = b.inner();
+					if inner_off + len > ib.len() {
+						return None;
+					}
+					return Some(ib.inspect_with_uninit_and_ptr_outside_interpreter(inner_off..inner_off + len).to_vec());
+				}
+			}
+		}
+		return None;
+	}
 	if !is_bytes_like {
 		return None;
 	}
